@@ -91,9 +91,12 @@ def execute(case):
     I = case["I"]
     n = len(I["tasks"])
     objs = {}
+    two_step = case["id"] % 2 == 1          # history: query, change estimates and dependencies, query again
     for i, t in enumerate(I["tasks"], start=1):
-        objs[i] = pj.Task(t["id"], name="T%d" % i, estimate=case["vals"].get("%d.est" % i),
-                          spent=case["vals"].get("%d.spent" % i))
+        e = case["vals"].get("%d.est" % i)
+        if two_step and i % 2:
+            e = (e or 0) + 1
+        objs[i] = pj.Task(t["id"], name="T%d" % i, estimate=e, spent=case["vals"].get("%d.spent" % i))
     w = pj.WBS()
 
     def attach(lst, numbers):
@@ -102,6 +105,10 @@ def execute(case):
             attach(objs[c].children, I["tasks"][c - 1]["kids"])
 
     attach(w.roots, I["roots"])
+    if two_step:
+        es.guarded(lambda: [t for t in w.critical_path()], 5.0)
+        for i, t in enumerate(I["tasks"], start=1):
+            objs[i].estimate = case["vals"].get("%d.est" % i)
     for i, t in enumerate(I["tasks"], start=1):
         if t["pre"]:
             objs[i].predecessors = [objs[p] for p in t["pre"]]
